@@ -56,7 +56,7 @@ def design_mc(ctx):
 
 # ==============================================================================================
 # worlds
-def make_world(rng, ns, nvar, pre="none", paired=0.0, sets=None, indels=0.0, decoys=False):
+def make_world(rng, ns, nvar, pre="none", paired=0.0, sets=None, indels=0.0, decoys=False, indel_front=False):
     """JSON-able tiny world.  Positions are 0-based; VCF POS = pos + 1.
     indels: probability that a site is an insertion / deletion instead of an SNV.
     decoys: add records no phase run supports - a multi-ALT heterozygous record and a second record at an already used
@@ -135,6 +135,15 @@ def make_world(rng, ns, nvar, pre="none", paired=0.0, sets=None, indels=0.0, dec
 
     recs, roles = [], []
     for i in range(nvar):
+        if indel_front and len(variants[i][1]) == 1 and len(variants[i][2]) == 1 and rng.random() < 0.6:
+            # an insertion record listed IN FRONT of the SNV at the same position: under --only-snvs (the only mode such a
+            # world is used in) the reader must drop it first and keep the SNV as the record of that position
+            fmt = fmt_for(dkinds)
+            ins_alt = variants[i][1] + rng.choice("ACGT")
+            calls = [[foreign_call((0, 1), rng.choice([dkinds[s], "none"]), i)[k] for k in fmt] for s in range(ns)]
+            recs.append({"chrom": "chr1", "pos": variants[i][0] + 1, "id": "insfront", "ref": variants[i][1], "alt": ins_alt, "qual": 50,
+                         "filter": "PASS", "info": ".", "fmt": fmt, "calls": calls})
+            roles.append({"var": -1, "skip": "", "indel": True})
         fmt = fmt_for(kinds)
         calls = []
         for s in range(ns):
@@ -302,19 +311,44 @@ def scenarios(ctx):
                 hist.append({"op": "P", "tag": rng.choice(["PS", "HP"]), "T": T, "snvs": rng.random() < 0.3})
         scs.append({"kind": "random", "pre": "", "world": w, "hist": _with_inputs(rng, hist)})
     ctx.notes["random_histories"] = nr
+    # ---- histories in which EVERY phase run uses --only-snvs, on worlds with an insertion record in front of SNVs at the same
+    #      position (what `phase --only-snvs` on a mixed call set leaves behind); phased VCFs as phase input in half of the steps ----
+    ns_ = 80 if q else 2500
+    for i in range(ns_):
+        ns = rng.choice([1, 2])
+        w = make_world(rng, ns, rng.randint(3, 6), pre=rng.choice(["none", "PS", "HP"]), indels=rng.choice([0, 0.3]),
+                       decoys=False, indel_front=True)
+        hist = []
+        for _ in range(rng.randint(1, 3)):
+            T = sorted(rng.sample(range(1, ns + 1), rng.randint(1, ns)))
+            hist.append({"op": "P", "tag": rng.choice(["PS", "HP"]), "T": T, "snvs": True})
+        scs.append({"kind": "onlysnvs", "pre": "", "world": w, "hist": _with_inputs(rng, hist, vcf_prob=0.6), "only_snvs_world": True})
+    ctx.notes["only_snvs_histories"] = ns_
+    # ---- twin runs under --distrust-genotypes --include-homozygous (genotypes change, homozygous calls become heterozygous) ----
+    nt = 80 if q else 2500
+    for i in range(nt):
+        ns = rng.choice([1, 1, 2])
+        w = make_world(rng, ns, rng.randint(3, 6), pre="none", paired=0.0, indels=0.0, decoys=False)
+        for rec, role in zip(w["recs"], w["roles"]):
+            if role["var"] >= 0:
+                for c in rec["calls"]:
+                    if rng.random() < 0.35:
+                        c[0] = rng.choice(["0/0", "1/1", "0/1"])       # a wrong call the reads will overrule
+        scs.append({"kind": "twin", "pre": "", "world": w, "hist": []})
+    ctx.notes["distrust_twin_runs"] = nt
     return scs
 
 
 # ==============================================================================================
 # driving the real commands
-def decode_real(path, samples, primary):
+def decode_real(path, samples, primary, only_snvs=False):
     """What whatshap's own reader decodes: per sample, per record a statement or [].
     primary: 0-based position -> index of the record the reader keeps for it (first biallelic record at that position)."""
     from whatshap.vcf import VcfReader
     nrec = primary["n"]
     try:
         ph = [[[] for _ in range(nrec)] for _ in samples]
-        with VcfReader(path, phases=True) as r:
+        with VcfReader(path, phases=True, only_snvs=only_snvs) as r:
             for table in r:
                 for s, name in enumerate(samples):
                     for v, p in zip(table.variants, table.phases_of(name)):
@@ -348,12 +382,12 @@ def _concat_as_contigs(p1, p2, dst):
                 fo.write("\t".join(f) + "\n")
 
 
-def decode_two_contigs(path, samples, primary):
+def decode_two_contigs(path, samples, primary, only_snvs=False):
     from whatshap.vcf import VcfReader
     nrec = primary["n"]
     try:
         out = {"chr1": [[[] for _ in range(nrec)] for _ in samples], "chr2": [[[] for _ in range(nrec)] for _ in samples]}
-        with VcfReader(path, phases=True) as r:
+        with VcfReader(path, phases=True, only_snvs=only_snvs) as r:
             for table in r:
                 ph = out[table.chromosome]
                 for s, name in enumerate(samples):
@@ -384,10 +418,24 @@ def _drive(sc, tmp):
         if role["var"] >= 0:
             primary[rec["pos"] - 1] = i
     fasta, bam, f0, gpaths = materialise(w, tmp)
+    if sc.get("kind") == "twin":
+        # the SAME run with --distrust-genotypes --include-homozygous under both tags: what the two outputs say about every
+        # call (genotype and decoded phase) must be identical - also where the run changed a genotype
+        outs = {}
+        for tag in ("PS", "HP"):
+            dst = os.path.join(tmp, f"twin{tag}.vcf")
+            exc = H.run_phase_file(f0, dst, tag, list(samples), [bam], reference=fasta, distrust_genotypes=True, include_homozygous=True)
+            if exc:
+                return [{"ev": "Twin", "exc": exc, "a": [], "b": [], "ga": [], "gb": []}]
+            proj = H.project_vcf(dst)[0]
+            outs[tag] = (decode_real(dst, samples, primary)["ph"],
+                         [[sorted(c["gt"]) for c in r["calls"]] for r in proj["recs"]])
+        return [{"ev": "Twin", "exc": "", "a": outs["PS"][0], "b": outs["HP"][0], "ga": outs["PS"][1], "gb": outs["HP"][1]}]
+    osw = bool(sc.get("only_snvs_world"))      # the reader that decodes the written files runs in the mode the world is made for
     paths = {0: f0}
     proj0, _, names = H.project_vcf(f0)
     assert names == samples and len(proj0["recs"]) == nrec
-    evs = [{"ev": "Load", "id": 0, "file": proj0, "dec": decode_real(f0, samples, primary)}]
+    evs = [{"ev": "Load", "id": 0, "file": proj0, "dec": decode_real(f0, samples, primary, osw)}]
     gproj = {enc: H.project_vcf(p)[0] for enc, p in gpaths.items()}
     cur, nxt = 0, 1
 
@@ -434,7 +482,7 @@ def _drive(sc, tmp):
                 rows.append(row)
             e["P"] = rows
             e["out"] = H.project_vcf(paths[dst])[0]
-            e["dec"] = decode_real(paths[dst], samples, primary)
+            e["dec"] = decode_real(paths[dst], samples, primary, osw)
             if inp != "bam":
                 e["g"] = gproj[inp[4:]]
         evs.append(e)
@@ -447,7 +495,7 @@ def _drive(sc, tmp):
             e = {"ev": "Unphase", "src": cur, "dst": dst, "exc": exc, "out": {"hdr": [], "recs": []}, "dec": {"exc": "", "ph": []}}
             if not exc:
                 e["out"] = H.project_vcf(paths[dst])[0]
-                e["dec"] = decode_real(paths[dst], samples, primary)
+                e["dec"] = decode_real(paths[dst], samples, primary, osw)
             evs.append(e)
             cur = None if exc else dst
         else:
@@ -459,7 +507,7 @@ def _drive(sc, tmp):
             if d1 is not None and d2 is not None:
                 cat = os.path.join(tmp, f"cat{d1}.vcf")
                 _concat_as_contigs(paths[d1], paths[d2], cat)
-                evs.append({"ev": "Concat", "a": ea["dec"], "b": eb["dec"], "ab": decode_two_contigs(cat, samples, primary)})
+                evs.append({"ev": "Concat", "a": ea["dec"], "b": eb["dec"], "ab": decode_two_contigs(cat, samples, primary, osw)})
             cur = d1
         if cur is None:
             break
@@ -482,6 +530,8 @@ def _stmt_count(P):
 
 
 def nontrivial(sc, events):
+    if sc.get("kind") == "twin":
+        return any(e.get("ev") == "Twin" and not e["exc"] and any(st for row in e["a"] for st in row) for e in events)
     files = _files_of(events)
     for e in events:
         if e.get("ev") != "Phase" or e["exc"]:
